@@ -17,6 +17,7 @@ requests
    op = {"o":"new","s":slot,"rec":v}         artifact from a record dict (Artifact.load); -> "ok" | "parseerror"
         {"o":"define"|"metaenv"|"file","s":slot,"k":[cp],"v":[cp]}
         {"o":"env","s":slot,"v":[cp]}   {"o":"recipes","s":slot,"v":v|absent}   {"o":"layers","s":slot,"v":{"m":..}}
+        {"o":"recipesaudit","s":slot,"v":{"m":[[name, v|null],...]}}   Audit.setRecipesAudit (null = a layer without audit)
         {"o":"getid","s":slot}               -> hex (leaves the id cached, as getId() does)
         {"o":"save","s":slot,"f":file}       {"o":"load","f":file,"s":slot}
         {"o":"loadraw","f":file,"tree":{"artifact":v,"references":[v,...]}} -> "ok" | "parseerror"
@@ -49,6 +50,16 @@ partial def dataOf (j : Json) : Data :=
             | _ => match j.getObjVal? "x" with
               | .ok (.str s) => .bytes ((Bytes.ofHex s).getD [])
               | _ => .null
+
+/-- the argument of `setRecipesAudit`: a dict name ↦ (dumped audit | None) -/
+def recipesAuditOf (j : Json) : List (Str × Option Data) :=
+  match j.getObjVal? "m" with
+  | .ok (.arr a) => a.toList.map fun p => match p with
+      | .arr kv => (cps (kv.getD 0 .null), match kv.getD 1 .null with
+          | .null => none
+          | x => some (dataOf x))
+      | _ => ([], none)
+  | _ => []
 
 def sha1 : Bytes → Id := Sha1.hashBytes
 
@@ -119,6 +130,8 @@ def stepOp (st : St) (j : Json) : St × Json :=
   | "recipes" => onArtifact st j fun a => a.setRecipes ((getObj? j "v").map dataOf)
   | "layers" => onArtifact st j fun a =>
       a.setLayers (match dataOf (j.getObjValD "v") with | .map m => m | _ => [])
+  | "recipesaudit" => withSlot st j fun a =>
+      (Audit.setRecipesAudit a (recipesAuditOf (j.getObjValD "v")), Json.null)
   | "getid" => withSlot st j fun a =>
       ({ a with artifact := a.artifact.dump sha1 }, hexJ (a.artifact.getId sha1))
   | "save" =>
